@@ -1,6 +1,7 @@
 package sim
 
 import (
+	"context"
 	"fmt"
 	"math"
 
@@ -10,6 +11,7 @@ import (
 	"github.com/ipld/go-ipld-prime/node/basicnode"
 	"github.com/ipld/go-ipld-prime/traversal/selector"
 	"github.com/ipld/go-ipld-prime/traversal/selector/builder"
+	"github.com/libp2p/go-libp2p/core/peer"
 
 	"github.com/ipfs/go-graphsync"
 	gsmsg "github.com/ipfs/go-graphsync/message"
@@ -169,6 +171,10 @@ type c08 struct {
 	bad    []bool
 	descs  []string
 	other  *Req
+	// an admission hook holds the scripted peer's requests; the operator releases them
+	holdAll  bool
+	held     map[graphsync.RequestID]int
+	released map[graphsync.RequestID]bool
 }
 
 func newC08() Scenario { return &c08{} }
@@ -220,15 +226,44 @@ func (s *c08) Build(w *World) {
 			s.p.Send(s.b.ID, gsmsg.NewMessage(map[graphsync.RequestID]gsmsg.GraphSyncRequest{id: rq}, nil, nil))
 		})
 	}
-	w.AddProvider(func() []*Event {
-		if !s.other.Issued {
-			return []*Event{s.other.IssueEvent()}
+	// An admission hook that holds every request of that peer without validating it (validation is left to the
+	// default validator), and an operator who lets held requests go: a held request is still an unvalidated one.
+	// (1 run in 4, from the tape's digest.)
+	s.held, s.released = map[graphsync.RequestID]int{}, map[graphsync.RequestID]bool{}
+	if t.Digest()%4 == 0 {
+		s.holdAll = true
+		s.b.OnIncomingRequest = func(p peer.ID, r graphsync.RequestData, a graphsync.IncomingRequestHookActions) {
+			if p == s.p.ID {
+				s.held[r.ID()] = w.Step
+				w.Probe("c08-request-held-by-admission-hook")
+				a.PauseResponse()
+			}
 		}
-		return nil
+	}
+	w.AddProvider(func() []*Event {
+		var evs []*Event
+		if !s.other.Issued {
+			evs = append(evs, s.other.IssueEvent())
+		}
+		for _, id := range s.ids {
+			id := id
+			if at, ok := s.held[id]; ok && !s.released[id] && w.Step > at+2 {
+				evs = append(evs, Inject("api", "act|B|unpause|"+shortReq(id), func(string) {
+					s.released[id] = true
+					go func() {
+						err := s.b.GS.Unpause(context.Background(), id)
+						w.Effect("act B unpause %s returned %v", shortReq(id), err != nil)
+					}()
+				}))
+			}
+		}
+		return evs
 	})
 }
 
-func (s *c08) Describe(w *World) string { return fmt.Sprintf("specs=%v bad=%v", s.descs, s.bad) }
+func (s *c08) Describe(w *World) string {
+	return fmt.Sprintf("specs=%v bad=%v held-by-hook=%v", s.descs, s.bad, s.holdAll)
+}
 
 func (s *c08) Done(w *World) bool {
 	if !s.script.Done() || !s.other.Done() {
